@@ -302,12 +302,74 @@ Definition engine_prop_ok (c : engine_case) : bool :=
   if 0 <? d then deadline_ok d (ec_parent c) (ec_dl c) (ec_t1 c) else true.
 
 (* ------------------------------------------------------------------ *)
+(* sequences: several requests through ONE TimeoutHandler instance; a handler
+   abandoned at its timeout goes on acting while later requests are served *)
+
+Record seq_req := mkSR
+  { sr_h0 : hdrs; sr_script : list act; sr_dmode : option kind;
+    (* observed, per request *)
+    sr_sout : sres; sr_status : Z; sr_snap : hdrs; sr_live : hdrs; sr_body : list Z;
+    sr_extra : Z; sr_late : Z; sr_foreign : Z }.
+
+Record seq_case := mkSeq
+  { sq_dur : Z;
+    sq_reqs : list seq_req;
+    sq_sched : list (nat * ev);        (* the executor forces it completely *)
+    sq_hobs : list (nat * ares);       (* what each handler action reported, in schedule order *)
+    sq_retatd : Z }.
+
+Definition sr_rw (r : seq_req) : rwriter :=
+  mkRW (sr_live r) (if sr_status r =? 0 then None else Some (sr_status r, sr_snap r)) (sr_body r).
+
+Definition iares_eqb (a b : nat * ares) : bool := Nat.eqb (fst a) (fst b) && ares_eqb (snd a) (snd b).
+
+Fixpoint zip_all {A B} (f : A -> B -> bool) (l1 : list A) (l2 : list B) : bool :=
+  match l1, l2 with
+  | [], [] => true
+  | x :: r1, y :: r2 => f x y && zip_all f r1 r2
+  | _, _ => false
+  end.
+
+Definition seq_agrees (c : seq_case) : bool :=
+  match mrun_strict (minit (map (fun r => (sr_h0 r, sr_script r)) (sq_reqs c))) (sq_sched c) with
+  | Some (ss, obs) =>
+    list_eqb iares_eqb obs (sq_hobs c) &&
+    zip_all (fun s r => rw_eqb (rw s) (sr_rw r) && sres_eqb (sout_of_sst (sst s)) (sr_sout r) &&
+                        (sr_extra r =? 0) && (sr_late r =? 0) && (sr_foreign r =? 0))
+            ss (sq_reqs c)
+  | None => false
+  end.
+
+(* request i seen as a single-request case: its own script, its own events, its own
+   observations — everything the other requests did is simply absent *)
+Definition seq_as_rest (c : seq_case) (i : nat) (r : seq_req) : rest_case :=
+  mkRest (sr_h0 r) (sr_script r) (sq_dur c) RqPlain None (sr_dmode r)
+         true (proj i (sq_sched c)) []
+         (map snd (filter (fun o => Nat.eqb (fst o) i) (sq_hobs c)))
+         (sr_sout r) (sr_status r) (sr_snap r) (sr_live r) (sr_body r)
+         (sr_extra r) (sr_late r) (sr_foreign r) None 0 (-1).
+
+Fixpoint forall_idx {A} (f : nat -> A -> bool) (i : nat) (l : list A) : bool :=
+  match l with
+  | [] => true
+  | x :: r => f i x && forall_idx f (S i) r
+  end.
+
+Definition seq_prop_ok (c : seq_case) : bool :=
+  forall_idx (fun i r =>
+                let rc := seq_as_rest c i r in
+                all_or_nothing_ok rc && nothing_after_timeout_ok rc)
+             O (sq_reqs c) &&
+  negb (sq_retatd c =? 0).
+
+(* ------------------------------------------------------------------ *)
 
 Inductive case :=
 | CRest (c : rest_case)
 | CSlot (c : slot_case)
 | CClient (c : client_case)
-| CEngine (c : engine_case).
+| CEngine (c : engine_case)
+| CSeq (c : seq_case).
 
 Definition agrees (c : case) : bool :=
   match c with
@@ -315,6 +377,7 @@ Definition agrees (c : case) : bool :=
   | CSlot c => slot_agrees c
   | CClient c => client_agrees c
   | CEngine c => engine_agrees c
+  | CSeq c => seq_agrees c
   end.
 
 Definition prop_ok (c : case) : bool :=
@@ -323,6 +386,7 @@ Definition prop_ok (c : case) : bool :=
   | CSlot c => slot_prop_ok c
   | CClient c => client_prop_ok c
   | CEngine c => engine_prop_ok c
+  | CSeq c => seq_prop_ok c
   end.
 
 (* diagnostics for replay files *)
